@@ -243,7 +243,7 @@ PROPS = {
         "design_ref": "DESIGN.md §3.3, §3.11, §4 C04",
     },
     "C14": {
-        "rules": ["INSTRLINT", "INSTRSPEC", "ALGID"],
+        "rules": ["INSTRLINT", "INSTRSPEC", "REGWIDTH", "ALGID"],
         "thorough": [],
         "technique": "static analysis: lint of every @instr (format keys, lane counts, stride assertions, trip counts) + lane-symbolic evaluation of the C fragment through a table of intrinsic semantics, compared with the Exo body term-by-term (no execution, no solver)",
         "level_text": "For every x86 instruction: the C template only uses keys the compiler supplies, register operands have the lane count of their register file, vector operands carry unit-stride "
